@@ -68,11 +68,13 @@ Theorem statenames_refuted :
 Proof. exact C12Proofs.statenames_refuted_lemma. Qed.
 Print Assumptions statenames_refuted.
 
-(* under the candidate repair (stateNamesExport as an atomic pointer) the
-   statement holds whether or not the copy exists *)
+(* under the candidate repairs (corpus/C12/fix_c12_*.diff: stateNamesExport as
+   an atomic pointer, VerifyStates / Import / Has / NetworkMachine.Tracers /
+   updateClock take the right locks) the statement holds for every method of
+   the table except SetSchema, whether or not the copy exists *)
 Theorem api_fixed_race_free :
   forall (names : list string) (f : field) (sched : list nat),
-    (forall n, In n names -> is_culprit n = false) ->
+    (forall n, In n names -> String.eqb n "SetSchema" = false) ->
     race_on f (exec (init (map (prog_of Fixed) names)) sched) = false.
 Proof. exact C12Proofs.api_fixed_race_free_lemma. Qed.
 Print Assumptions api_fixed_race_free.
